@@ -106,8 +106,23 @@ impl<T> Out<T> {
 }
 /// The part of an error message that does not depend on the input (up to the first ':' or digit run).
 fn fixed_part(msg: &str) -> String {
-    let cut = msg.find(|c: char| c == '{' || c == '"' || c == '`' || c.is_ascii_digit()).unwrap_or(msg.len());
-    let s = &msg[..cut];
+    // cut at the first character that starts variable content, and before the first word that looks like data
+    // (base64url text, digests, tokens: a word of more than 20 characters, or a mixed-case word containing a digit later on)
+    let mut cut = msg.find(|c: char| c == '{' || c == '"' || c == '`' || c.is_ascii_digit()).unwrap_or(msg.len());
+    let mut pos = 0;
+    for w in msg.split(' ') {
+        if pos >= cut {
+            break;
+        }
+        let long = w.chars().count() > 20;
+        let data_like = w.len() >= 8 && w.chars().any(|c| c.is_ascii_digit()) && w.chars().any(|c| c.is_ascii_uppercase()) && w.chars().any(|c| c.is_ascii_lowercase());
+        if long || data_like {
+            cut = cut.min(pos);
+            break;
+        }
+        pos += w.len() + 1;
+    }
+    let s = &msg[..cut.min(msg.len())];
     let s: String = s.chars().take(90).collect();
     s.trim().to_string()
 }
